@@ -149,6 +149,9 @@ type Kube struct {
 	NoLagKinds map[string]bool
 	// delivering is true while a handler runs (no nested scheduling).
 	delivering bool
+	// fullEventPending: an event of a kind whose handler asks for a full sync was
+	// delivered and no full sync ran since.
+	fullEventPending bool
 	// counters
 	Reads, Notes int
 	// readTrace, when non-nil, records every Get/List key (C09 uses it).
@@ -338,6 +341,10 @@ func (k *Kube) deliver(kind string, n note) {
 	s := k.ks(kind)
 	k.delivering = true
 	defer func() { k.delivering = false }()
+	switch kind {
+	case KIngressClass, KGateway, KGatewayClass, KHTTPRoute, KTCPRoute, KGatewayB1, KGatewayClsB1, KHTTPRouteB1, KGatewayA2, KGatewayClsA2, KHTTPRouteA2:
+		k.fullEventPending = true
+	}
 	k.Notes++
 	k.run.trace("notify %s %s %s", n.typ, kind, noteKey(n))
 	for _, h := range s.handlers {
